@@ -258,3 +258,119 @@ def paired_correlated(func, acquire_stmt, is_release, include_exc=True):
         return False
     p = c.reach(srcs, lambda n: n.id in targets, block_node=is_release, block_edge=block_edge)
     return None if p is None else c.describe(p)
+
+
+# ---------------------------------------------------------------------------- NONE rule
+def none_accept(text):
+    """gate predicate: facts that prove the expression whose normalised text is `text` is not None."""
+    def accept(e, pol):
+        if isinstance(e, ast.Compare) and len(e.ops) == 1 and norm(e.left) == text:
+            o, r = e.ops[0], e.comparators[0]
+            r_none = isinstance(r, ast.Constant) and r.value is None
+            if isinstance(o, ast.Is) and r_none:
+                return pol is False
+            if isinstance(o, ast.IsNot) and r_none:
+                return pol is True
+            if isinstance(o, (ast.Eq, ast.In)) and not r_none and pol is True:
+                # equal to / member of something that is not None
+                if isinstance(r, ast.Constant) or (isinstance(r, (ast.Tuple, ast.List, ast.Set)) and
+                                                   all(isinstance(x, ast.Constant) and x.value is not None for x in r.elts)):
+                    return True
+            if isinstance(o, (ast.NotEq,)) and r_none:
+                return pol is True
+            return False
+        if norm(e) == text:
+            return pol is True
+        if isinstance(e, ast.Call) and call_name(e) == 'isinstance' and e.args and norm(e.args[0]) == text:
+            return pol is True
+        if isinstance(e, ast.NamedExpr) and norm(e.target) == text:
+            return pol is True
+        return False
+    return accept
+
+
+def derefs_of(func, text, nested=False):
+    """Nodes that dereference the expression `text` (attribute access, subscript, call)."""
+    out = []
+    it = ast.walk(func) if nested else own_nodes(func)
+    for n in it:
+        if isinstance(n, ast.Attribute) and norm(n.value) == text:
+            out.append(n)
+        elif isinstance(n, ast.Subscript) and norm(n.value) == text:
+            out.append(n)
+        elif isinstance(n, ast.Call) and norm(n.func) == text:
+            out.append(n)
+    out.sort(key=lambda n: (n.lineno, n.col_offset))
+    return out
+
+
+def none_safe(func, use, text, def_stmt=None):
+    """Is the dereference `use` of expression `text` guarded against None on every path from
+    its definition (def_stmt; None = function entry)?  Returns None if safe, else a witness."""
+    c = cfg_of(func)
+    un = c.nodes_containing(use)
+    if not un:
+        raise AnchorError('no CFG node for %s' % short(use))
+    accept = none_accept(text)
+    for e, pol in expr_guards(use, un[0].ast):
+        if accept(e, pol):
+            return None
+    ids = {n.id for n in un}
+    var = text if text.isidentifier() else None
+
+    def is_def(n):
+        a = n.ast
+        if var is None or a is None:
+            return False
+        if isinstance(a, (ast.Assign, ast.AugAssign, ast.AnnAssign)):
+            tg = a.targets if isinstance(a, ast.Assign) else [a.target]
+            return any(isinstance(x, ast.Name) and x.id == var for t in tg for x in ast.walk(t))
+        if n.kind == 'for':
+            return any(isinstance(x, ast.Name) and x.id == var for x in ast.walk(a.target))
+        return False
+
+    def block_edge(n, k, m):
+        return n.kind == 'test' and k in ('T', 'F') and accept(n.ast, k == 'T')
+    if def_stmt is None:
+        srcs = [c.entry]
+    else:
+        srcs = c.nodes_of(def_stmt)
+        if not srcs:
+            raise AnchorError('no CFG node for def %s' % short(def_stmt))
+    src_ids = {s.id for s in srcs}
+    # a use inside the defining statement's own test (while x.y: x = nav()) is reached after the def
+    p = c.reach(srcs, lambda n: n.id in ids, block_node=lambda n: is_def(n) and n.id not in ids, block_edge=block_edge)
+    return None if p is None else c.describe(p)
+
+
+def none_safe_chain(func, use, text):
+    """Like none_safe for an attribute chain (`context.name`): facts are killed by any
+    re-assignment of the chain's root variable, so the search starts at the function entry and
+    at every assignment of the root, and may not pass through another one."""
+    c = cfg_of(func)
+    un = c.nodes_containing(use)
+    if not un:
+        raise AnchorError('no CFG node for %s' % short(use))
+    accept = none_accept(text)
+    for e, pol in expr_guards(use, un[0].ast):
+        if accept(e, pol):
+            return None
+    root = text.split('.')[0].split('[')[0]
+    ids = {n.id for n in un}
+
+    def is_def(n):
+        a = n.ast
+        if a is None:
+            return False
+        if isinstance(a, (ast.Assign, ast.AugAssign, ast.AnnAssign)):
+            tg = a.targets if isinstance(a, ast.Assign) else [a.target]
+            return any(isinstance(x, ast.Name) and x.id == root and isinstance(x.ctx, ast.Store) for t in tg for x in ast.walk(t))
+        if n.kind == 'for':
+            return any(isinstance(x, ast.Name) and x.id == root for x in ast.walk(a.target))
+        return False
+
+    def block_edge(n, k, m):
+        return n.kind == 'test' and k in ('T', 'F') and accept(n.ast, k == 'T')
+    srcs = [c.entry] + [n for n in c.nodes if is_def(n)]
+    p = c.reach(srcs, lambda n: n.id in ids, block_node=lambda n: is_def(n) and n.id not in ids, block_edge=block_edge)
+    return None if p is None else c.describe(p)
